@@ -249,8 +249,8 @@ def r3_predicates(chk, repo):
     chk.check(not bl, "C17.R3", tw, left, "left scan does not skip exactly the things ending at or before (container start - window)", site_text="_touching_windows: skip while thing_end <= t0 - window", site={"function": tw.qualname, "construct": "left scan"})
     chk.check(not br, "C17.R3", tw, right, "right scan does not include exactly the things starting before (container end + window)", site_text="_touching_windows: advance while thing_start < t1 + window", site={"function": tw.qualname, "construct": "right scan"})
     from ..pattern import find as _pf
-    LI = next((x.id for x in ast.walk(lc) if isinstance(x, ast.Name) and isinstance(getattr(x, "_parent", None), ast.Subscript) and norm(x._parent.value) == "thing_end"), None)
-    RI = next((x.id for x in ast.walk(rc) if isinstance(x, ast.Name) and isinstance(getattr(x, "_parent", None), ast.Subscript) and norm(x._parent.value) == "thing_start"), None)
+    LI = next((x.id for x in ast.walk(lc) if isinstance(x, ast.Name) and isinstance(getattr(x, "_parent", None), ast.Subscript) and x._parent.slice is x and norm(x._parent.value) == "thing_end"), None)
+    RI = next((x.id for x in ast.walk(rc) if isinstance(x, ast.Name) and isinstance(getattr(x, "_parent", None), ast.Subscript) and x._parent.slice is x and norm(x._parent.value) == "thing_start"), None)
     s0 = [(n, b) for n, b in _pf(tw.node, f"L_res[L_i, 0] = {LI}")] if LI else []
     s1 = [(n, b) for n, b in _pf(tw.node, f"L_res[L_i, 1] = {RI}")] if RI else []
     okst = len(s0) == 1 and len(s1) == 1 and enclosing(s0[0][0], (ast.For,)) is enclosing(left, (ast.For,)) and enclosing(s1[0][0], (ast.For,)) is enclosing(right, (ast.For,)) and not any(x is s0[0][0] for x in ast.walk(left)) and not any(x is s1[0][0] for x in ast.walk(right))
